@@ -291,6 +291,23 @@ func (p *Path) retainedBytes(v Value) int64 {
 	var n int64
 	for _, o := range order {
 		n += o.size
+		// used length of every slice kept in the object: an append-only buffer that is never reset grows
+		// here long before its capacity (and with it the allocation) does
+		var rec func(c *Cell)
+		rec = func(c *Cell) {
+			if c.kids != nil {
+				for _, k := range c.kids {
+					rec(k)
+				}
+				return
+			}
+			if s, ok := c.val.(SliceV); ok && s.arr != nil {
+				if at, ok := s.arr.typ.Underlying().(*types.Array); ok {
+					n += int64(s.len) * p.eng.sizeof(at.Elem())
+				}
+			}
+		}
+		rec(o.root)
 	}
 	return n
 }
@@ -312,6 +329,12 @@ func (p *Path) obsPrimitive(name string, args []Value) (Value, bool) {
 			p.traceNote("snapshot: " + why)
 		}
 		return t, true
+	case "vpRetainedTree":
+		return p.ts.Const(64, uint64(p.retainedBytes(args[0]))), true
+	case "vpReps":
+		return args[0], true
+	case "vpNoGrowth":
+		return p.ts.Ule(args[1].(*Term), p.ts.Bin(OAdd, args[0].(*Term), args[2].(*Term))), true
 	case "vpRetained":
 		return p.ts.Const(64, uint64(p.retainedBytes(args[0]))), true
 	case "vpPoolOps":
